@@ -23,6 +23,7 @@ type Plan struct {
 	Seeding   *SeedPlan       `json:"seeding,omitempty"`
 	Lifecycle *LifePlan       `json:"lifecycle,omitempty"`
 	Trackers  *TrackerPlan    `json:"trackers,omitempty"`
+	Policy    *PolicyPlan     `json:"policy,omitempty"`
 	Generic   json.RawMessage `json:"generic,omitempty"`
 }
 
@@ -280,6 +281,68 @@ func init() {
 		tp.Bound = 2 * time.Hour
 		tp.Liveness = true
 		tp.LivenessProp = "C08"
+		p.Transfer = tp
+	}, Run: func(env *Env, p *Plan) { RunTransfer(env, p.Transfer) }})
+
+	// C13: magnet start with lying / garbage / rejecting metadata peers and size games
+	Register(&Scenario{Name: "magnet", Gen: func(r *simrt.Rand, tier string, p *Plan) {
+		tp := genTransferBase(r, tier)
+		// bigger metadata (several 16 KiB pieces) sometimes: many small files
+		if r.Chance(0.4) {
+			tp.Layout.Single = false
+			var files []gen.FileSpec
+			for i := 0; i < r.Range(50, 600); i++ {
+				files = append(files, gen.FileSpec{Path: []string{fmt.Sprintf("dir%03d", i%7), fmt.Sprintf("file-with-a-rather-long-name-%05d.bin", i)}, Length: int64(r.Range(0, 300))})
+			}
+			tp.Layout.Files = files
+			tp.Layout.PieceLen = 16384
+		}
+		np := numPiecesOf(tp.Layout)
+		tp.Magnet = true
+		tp.MagnetBase32 = r.Chance(0.3)
+		tp.MagnetDN = simrt.Pick(r, []string{"", "plain", "a b&c=d/e?f#g%h+i", "\u00fcml\u00e4ut \u2603", "x\ty"})
+		for i := 0; i < r.Range(0, 3); i++ {
+			var t []string
+			for j := 0; j < r.Range(1, 3); j++ {
+				t = append(t, fmt.Sprintf("%s://10.9.%d.%d:6969/ann?x=%d&y=z", simrt.Pick(r, []string{"http", "udp", "https"}), i, j, j))
+			}
+			tp.MagnetTiers = append(tp.MagnetTiers, t)
+		}
+		limit := simrt.Pick(r, []int{0, 0, 1 << 20, 20000})
+		tp.K.MaxMetadataSize = uint(limit)
+		effLimit := limit
+		if effLimit == 0 {
+			effLimit = 30 << 20
+		}
+		tp.K.ParallelMetadataDownloads = r.Range(0, 3)
+		tp.FaultsStop = r.Dur(10*time.Second, 60*time.Second)
+		hp := honestPeer(r, tp.Layout, "h0", np)
+		hp.At = r.Dur(0, tp.FaultsStop)
+		hp.B.MetaLimit = effLimit
+		if r.Chance(0.5) {
+			hp.Mode, hp.Via, hp.Redial = "listen", "magnet", 0
+		}
+		tp.Peers = append(tp.Peers, hp)
+		for i := 0; i < r.Range(1, 5); i++ {
+			b := refbt.Behavior{Fast: r.Chance(0.5), Ext: true, Announce: "auto", Have: refbt.FullBits(np), ServeDelay: [2]time.Duration{0, r.Dur(0, 30*time.Millisecond)},
+				MetaMode: simrt.Pick(r, []string{"honest", "reject", "silent", "garbage", "wrongbytes", "wrongsize", "dup", "unrequested"}), MetaLimit: effLimit}
+			switch r.Intn(5) {
+			case 0:
+				b.MetadataSize = effLimit + 1 + r.Intn(1000) // just over the limit: must never be asked
+			case 1:
+				b.MetadataSize = 1 << 30
+			case 2:
+				b.MetadataSize = r.Range(1, 100000) // a lie within the limit
+			case 3:
+				b.MetadataSize = -1 // omitted
+			}
+			ps := PeerSpec{Name: fmt.Sprintf("m%d", i), B: b, Mode: simrt.Pick(r, []string{"dial", "listen"}), At: r.Dur(0, tp.FaultsStop/2), Redial: r.Dur(time.Second, 8*time.Second), Via: simrt.Pick(r, []string{"magnet", "manual"})}
+			tp.Peers = append(tp.Peers, ps)
+		}
+		tp.Bound = 2 * time.Hour
+		// completion can be demanded only if the honest peer's metadata is within the limit
+		tp.Liveness = true
+		tp.LivenessProp = "C13"
 		p.Transfer = tp
 	}, Run: func(env *Env, p *Plan) { RunTransfer(env, p.Transfer) }})
 }
